@@ -421,11 +421,24 @@ def check_tsp(ctx: Ctx, case: dict) -> None:
 
 @st.composite
 def ttp_cases(draw: Any) -> dict:
-    return {"family": "ttp", "setup": draw(st.sampled_from(
+    case = {"family": "ttp", "setup": draw(st.sampled_from(
         ["rls", "rs", "mo_rls", "mo_nsga2"])),
         "inst": draw(st.sampled_from(TTP_RESOURCES)), "seed": draw(SEEDS),
         # tiny budgets return plans with byes, larger ones complete plans
         "budget": draw(st.one_of(st.integers(1, 12), st.integers(20, 400)))}
+    if draw(st.integers(0, 2)) == 0:
+        # the same cities and distances with other streak limits (the
+        # bundled files all have 1..3 / 1..3) and no separation limits,
+        # through the public Instance constructor; under these the error
+        # count is documented for plans with idle days, too
+        case["inst"] = draw(st.sampled_from(TTP_RESOURCES[:12]))
+        hmin, amin = draw(st.sampled_from(
+            [(1, 2), (2, 1), (1, 3), (3, 1), (2, 2), (2, 3), (3, 2)]))
+        case["streaks"] = [hmin, hmin + draw(st.integers(0, 2)),
+                           amin, amin + draw(st.integers(0, 2))]
+        case["budget"] = draw(st.one_of(st.integers(1, 12),
+                                        st.integers(13, 60)))
+    return case
 
 
 def check_ttp(ctx: Ctx, case: dict) -> None:
@@ -443,11 +456,16 @@ def check_ttp(ctx: Ctx, case: dict) -> None:
     setup = getattr(mod, {"mo_rls": "rls", "mo_nsga2": "mo_nsga2"}.get(
         case["setup"], case["setup"]))
     inst = Instance.from_resource(case["inst"])
+    if case.get("streaks"):
+        days = (int(inst.n_cities) - 1) * int(inst.rounds)
+        inst = sut("ttp Instance()", Instance, inst.name + "s",
+                   np.array(inst), inst.teams, int(inst.rounds),
+                   *case["streaks"], 0, days)
     n, rounds = int(inst.n_cities), int(inst.rounds)
     stg = (inst.home_streak_min, inst.home_streak_max, inst.away_streak_min,
            inst.away_streak_max, inst.separation_min, inst.separation_max)
     space = GamePlanSpace(inst)
-    what = f"ttp/{case['setup']}/{case['inst']}"
+    what = f"ttp/{case['setup']}/{inst.name}"
 
     def make() -> Any:
         return setup(inst)
@@ -482,6 +500,14 @@ def check_ttp(ctx: Ctx, case: dict) -> None:
         cnt = sum(oracle_ttp.rule_counts(plan, n, rounds, stg).values())
         require(errs_fresh == cnt, lambda: f"{what}: Errors={errs_fresh} "
                 f"but the per-rule count is {cnt}")
+    elif stg[4] == 0 and stg[5] >= (n - 1) * rounds - 2 and not \
+            oracle_ttp.inconsistencies(plan) and not \
+            oracle_ttp.self_play(plan):
+        cnt = sum(oracle_ttp.rule_counts_with_byes(
+            plan, n, rounds, stg).values())
+        require(errs_fresh == cnt, lambda: f"{what}: Errors={errs_fresh} "
+                f"but the documented count for the plan with idle days is "
+                f"{cnt} (streak limits {stg[:4]}, plan {plan})")
     dist = [[int(v) for v in row] for row in np.asarray(inst)]
     length = oracle_ttp.travel_length(plan, dist)
     # the travel length of the returned plan (second objective of the
@@ -502,6 +528,8 @@ def check_ttp(ctx: Ctx, case: dict) -> None:
     ctx.rec.case(case, nontrivial=r1["last_imp"] > 1, labels=[
         "family=ttp", f"ttp.setup={case['setup']}",
         "ttp.complete_plan" if complete else "ttp.plan_with_byes",
+        "ttp.own_streak_limits" if case.get("streaks")
+        else "ttp.bundled_limits",
         "ttp.feasible" if not why else "ttp.infeasible"])
 
 
@@ -558,7 +586,8 @@ def check_qap(ctx: Ctx, case: dict) -> None:
 def instgen_cases(draw: Any) -> dict:
     return {"family": "instgen",
             "template": draw(st.sampled_from(INSTGEN_TEMPLATES)),
-            "slack": draw(st.sampled_from([0.0, 0.125, 0.25])),
+            "slack": draw(st.sampled_from([0.0, 0.125, 0.25, 0.25, 0.5,
+                                           1.0])),
             "inner_fes": draw(st.integers(2, 40)),
             "inner_runs": draw(st.integers(1, 2)),
             "seed": draw(SEEDS), "budget": draw(st.integers(4, 10))}
@@ -606,6 +635,28 @@ def check_instgen(ctx: Ctx, case: dict) -> None:
             lambda: f"{what}: area {g.total_item_area} / lower bound "
             f"{g.lower_bound_bins} do not need exactly {sp.min_bins} bins")
     require(0.0 <= r1["best_f"] <= 1.0, f"{what}: best_f={r1['best_f']}")
+    # the decoder is the last step of every run: what it makes of other
+    # points of the search space (as a run with another seed or budget would
+    # return them) passes the same independent check
+    import random
+    rnd = random.Random(case["seed"])  # noqa: S311 - part of the case
+    xs = prob.search_space.create()
+    for k in range(24):
+        for i in range(len(xs)):
+            xs[i] = rnd.uniform(-1.0, 1.0) if k % 3 else rnd.choice(
+                (-1.0, -0.5, 0.0, 0.5, 1.0, rnd.uniform(-1.0, 1.0)))
+        yk = sp.create()
+        sut("InstanceDecoder.decode", prob.encoding.decode, xs, yk)
+        gk = yk[0]
+        require(gk.n_items == sp.n_items and all(
+            1 <= int(r[0]) <= sp.bin_width and 1 <= int(r[1])
+            <= sp.bin_height or 1 <= int(r[1]) <= sp.bin_width
+            and 1 <= int(r[0]) <= sp.bin_height for r in gk)
+            and (sp.min_bins - 1) * bin_area < gk.total_item_area
+            <= sp.min_bins * bin_area, lambda: f"{what}: the point "
+            f"{list(xs)} decodes to an instance with {gk.n_items} items of "
+            f"total area {gk.total_item_area}: it does not need exactly "
+            f"{sp.min_bins} bins of area {bin_area}")
     # through the encoding, and differential re-evaluation
     y2 = sp.create()
     prob.encoding.decode(x, y2)
@@ -835,7 +886,7 @@ def run(ctx: Ctx) -> None:
               shrink=False)
     ctx.given("ttp", ttp_cases(), check_ttp, quick=90, thorough=16 * 100,
               shrink=False)
-    ctx.given("instgen", instgen_cases(), check_instgen, quick=6,
+    ctx.given("instgen", instgen_cases(), check_instgen, quick=12,
               thorough=16 * 8, shrink=False)
     ctx.given("dc", dc_cases(), check_dc, quick=12, thorough=16 * 12,
               shrink=False)
